@@ -306,11 +306,42 @@ pub fn cli_images(args: &[String]) -> i32 {
     let workers = arg_u64(args, "--workers", 16) as usize;
     let dump = arg(args, "--dump-log").unwrap_or_else(|| harness_error("images: --dump-log required")).to_string();
     let b = Batch { seed, engine: ENGINE_IMAGES, runs, workers };
+    let perm_fail: std::sync::Mutex<Option<(u64, u64, serde_json::Value)>> = std::sync::Mutex::new(None);
     let locals: Vec<ImgLocal> = batch::run_batch(&b, |k, rs, l: &mut ImgLocal| {
         let w = threads::generate(rs);
         l.lines.push((k, format!("{k} {rs} {}\n", image_hash(&w.spec))));
+        // permutation independence on the same spec (no schedule involved: plain seeded sampling)
+        if w.spec.kind != crate::pma::Kind::LeftmostFirst && w.spec.patterns.len() > 1 {
+            let mut rng = crate::rng::Rng::new(rs ^ 0x9E3779B9);
+            let mut order: Vec<usize> = (0..w.spec.patterns.len()).collect();
+            rng.shuffle(&mut order);
+            let a = crate::pma::build(&w.spec);
+            let b2 = crate::pma::build_ordered(&w.spec, &order, || {});
+            let same = match (&a, &b2) {
+                (Ok(x), Ok(y)) => x.serialize() == y.serialize() && x.same(&**y),
+                (Err(x), Err(y)) => x == y,
+                _ => false,
+            };
+            if !same {
+                let mut g = perm_fail.lock().unwrap();
+                if g.as_ref().map(|f| k < f.0).unwrap_or(true) {
+                    *g = Some((k, rs, json!({"spec": w.spec, "order": order})));
+                }
+                return true;
+            }
+        }
         false
     });
+    if let Some((k, rs, doc)) = perm_fail.into_inner().unwrap() {
+        let replay_dir = arg(args, "--replay-dir").unwrap_or("/verif/replays").to_string();
+        let path = format!("{replay_dir}/C14-perm-{seed}-{k}.json");
+        let doc = json!({"engine": "perm", "property": "C14", "class": "build-order-dependent", "run": k, "run_seed": rs,
+            "detail": "building from a permutation of the same pattern/value pairs gives a different automaton", "scenario": doc});
+        std::fs::create_dir_all(&replay_dir).ok();
+        std::fs::write(&path, serde_json::to_string_pretty(&doc).unwrap()).unwrap_or_else(|e| harness_error(&format!("write {path}: {e}")));
+        println!("VIOLATION property=C14 replay={path}");
+        return 1;
+    }
     let mut all: Vec<(u64, String)> = locals.into_iter().flat_map(|l| l.lines).collect();
     all.sort();
     let txt: String = all.into_iter().map(|x| x.1).collect();
@@ -325,4 +356,25 @@ pub fn cli_image_of(args: &[String]) -> i32 {
     let w = threads::generate(rs);
     println!("{}", image_hash(&w.spec));
     0
+}
+
+pub fn replay_perm(doc: &serde_json::Value) -> i32 {
+    let spec: crate::pma::Spec = serde_json::from_value(doc["scenario"]["spec"].clone())
+        .unwrap_or_else(|e| harness_error(&format!("replay file: bad spec: {e}")));
+    let order: Vec<usize> = serde_json::from_value(doc["scenario"]["order"].clone())
+        .unwrap_or_else(|e| harness_error(&format!("replay file: bad order: {e}")));
+    let a = crate::pma::build(&spec);
+    let b = crate::pma::build_ordered(&spec, &order, || {});
+    let same = match (&a, &b) {
+        (Ok(x), Ok(y)) => x.serialize() == y.serialize() && x.same(&**y),
+        (Err(x), Err(y)) => x == y,
+        _ => false,
+    };
+    if same {
+        println!("replayed: no violation");
+        0
+    } else {
+        println!("replayed: [build-order-dependent] permuted build differs");
+        1
+    }
 }
